@@ -20,6 +20,8 @@ pub fn create_from_instructions(lhs: Instruction, rhs: Instruction) -> Instructi
 }
 
 pub fn exec(lhs: Variable, rhs: Variable) -> Variable {
+    #[cfg(feature = "verif")]
+    crate::verif::check_concat(&lhs, &rhs);
     match (lhs, rhs) {
         (Variable::Int(value1), Variable::Int(value2)) => value1.wrapping_add(value2).into(),
         (Variable::Float(value1), Variable::Float(value2)) => (value1 + value2).into(),
